@@ -1,6 +1,7 @@
 #include "scenario.h"
 
 #include <algorithm>
+#include <functional>
 #include <stdio.h>
 
 namespace sim {
@@ -207,11 +208,18 @@ std::vector<std::string> ActiveHidden(const Scenario& sc, const Stmt& s, const C
 
 std::vector<std::string> ReadSet(const Scenario& sc, const Stmt& s, const ContentFn& get) {
   std::vector<std::string> r;
-  auto add = [&](const std::string& p) {
+  // a command given an alias reads the files the alias stands for
+  std::function<void(const std::string&, int)> add_d = [&](const std::string& p, int depth) {
     int pr = sc.Producer(p);
-    if (pr >= 0 && sc.stmts[pr].phony) return;   // commands do not read aliases
+    if (pr >= 0 && sc.stmts[pr].phony) {
+      if (depth > 20) return;
+      for (auto& q : sc.stmts[pr].ins) add_d(q, depth + 1);
+      for (auto& q : sc.stmts[pr].imp_ins) add_d(q, depth + 1);
+      return;
+    }
     if (std::find(r.begin(), r.end(), p) == r.end()) r.push_back(p);
   };
+  auto add = [&](const std::string& p) { add_d(p, 0); };
   for (auto& p : s.ins) add(p);
   for (auto& p : s.imp_ins) add(p);
   if (const DyndepEntry* e = sc.DyndepFor(s.id)) for (auto& p : e->imp_ins) add(p);
